@@ -90,6 +90,9 @@ def h_tt_get(ctx, ns, rho, where):
         ctx.claim('outside_gets_fill_value', ctx.eq(y, z))
     yb = teneva.func_get(np.array([x, x]), A, a, b, z=z)
     ctx.claim('batch_equals_single', ctx.all_([ctx.eq(yb[0], y), ctx.eq(yb[1], y)]))
+    # the fill value may be given as an integer: in-box values are unaffected by it
+    yi = teneva.func_get(np.array([x, x]), A, a, b, z=-1)
+    ctx.claim('integer_fill_value', ctx.eq(yi[0], f(x)) if where == 'inside' else ctx.eq(yi[0], -1))
     ctx.canary('canary', ctx.eq(y, f(x) + 1))
 
 
@@ -176,6 +179,8 @@ def h_full_vs_tt(ctx, ns, sym_box):
         fx = fx * polyval(coef[k], x[k])
     yf = teneva.func_get_full(x.reshape(1, -1), Af, a, b)
     ctx.claim('dense_interpolant_equals_f', ctx.eq(yf[0], fx))
+    yi = teneva.func_get_full(np.array([x, x]), Af, a, b, z=-1)
+    ctx.claim('dense_interpolant_integer_fill_value', ctx.all_([ctx.eq(yi[0], fx), ctx.eq(yi[1], fx)]))
     if d >= 2:
         Y = [np.array([polyval(coef[k], nodes[k][j]) for j in range(ns[k])], dtype=Yf.dtype).reshape(1, -1, 1)
              for k in range(d)]
@@ -194,8 +199,9 @@ def h_full_vs_tt(ctx, ns, sym_box):
         ctx.raises(ValueError, 'dense_sum_rejects_asymmetric_box', teneva.func_sum_full, Af, a, b)
 
 
-def h_general(ctx, n):
-    """func_int_general with a basis containing f reproduces f (distinct nodes)."""
+def h_general(ctx, n, per_mode=False):
+    """func_int_general with a basis containing f reproduces f (distinct nodes;
+    per_mode: a different node set for every mode, given as a 2-D array)."""
     X = vec(ctx, 'x', n)
     for i in range(n - 1):
         ctx.assume(ctx.lt(X[i], X[i + 1]), 'distinct nodes')
@@ -204,13 +210,22 @@ def h_general(ctx, n):
     def basis(Xq):
         return teneva.func_basis(Xq, n)           # Chebyshev T_0..T_{n-1} of the raw point
     vals = np.array([polyval(c, xi) for xi in X], dtype=X.dtype)
-    Y = [vals.reshape(1, n, 1).copy(), vals.reshape(1, n, 1).copy()]
-    A = teneva.func_int_general(Y, X, basis)
+    if per_mode:
+        X2 = vec(ctx, 'u', n)
+        for i in range(n - 1):
+            ctx.assume(ctx.lt(X2[i], X2[i + 1]), 'distinct nodes')
+        vals2 = np.array([polyval(c, xi) for xi in X2], dtype=X.dtype)
+        Y = [vals.reshape(1, n, 1).copy(), vals2.reshape(1, n, 1).copy()]
+        A = teneva.func_int_general(Y, np.array([list(X), list(X2)], dtype=X.dtype), basis)
+    else:
+        Y = [vals.reshape(1, n, 1).copy(), vals.reshape(1, n, 1).copy()]
+        A = teneva.func_int_general(Y, X, basis)
     ctx.claim('coeff_shape', well_formed(A, [n, n]))
     xq = ctx.real('xq')
     Tq = teneva.func_basis(np.array([xq], dtype=X.dtype), n)[:, 0]
-    got = sum((A[0][0, i, 0] * Tq[i] for i in range(n)), 0)
-    ctx.claim('span_function_reproduced', ctx.eq(got, polyval(c, xq)))
+    for k in range(2):
+        got = sum((A[k][0, i, 0] * Tq[i] for i in range(n)), 0)
+        ctx.claim(f'span_function_reproduced_mode{k}', ctx.eq(got, polyval(c, xq)))
 
 
 def instances(tier):
@@ -235,6 +250,7 @@ def instances(tier):
         out.append({'func': 'h_full_vs_tt', 'params': {'ns': ns, 'sym_box': sb}})
     for n in ([2, 3] if quick else [2, 3, 4]):
         out.append({'func': 'h_general', 'params': {'n': n}})
+    out.append({'func': 'h_general', 'params': {'n': 2, 'per_mode': True}})
     return out
 
 
